@@ -200,6 +200,9 @@ def plan_C17(chk, tier, seed):
             raise ToolError("TLC %s failed:\n%s" % (run, "\n".join(r["log"][-30:])))
         chk.add_tlc(r)
         judge_vectors(chk, cfg, r, run, ["C17"])
+    # every member of every response over the lattice of its type must come out as a COMPLETE message
+    simple(chk, "MC_Responses", ["all"] if tier == "quick" else ["none", "all"], ["C17"],
+           ["TypeOK", "FitsOrOneByteError", "Emit"], cases="ValueLattice")
     value_traces(chk, "all", "MC_Buffer", "MC_Cases", 1500 if tier == "quick" else 30000, seed, "C17.values")
     # complete exchanges over a reused buffer: histories of two exchanges, with the liveness property
     # that every exchange terminates
@@ -464,7 +467,7 @@ def plan_C16(chk, tier, seed):
         wire_cfgs = ALL8 if tier == "thorough" else ["none", "gif", "lb+tpp", "all"]
         if cfg in wire_cfgs:
             for cases, module, inv2 in (("StrictCases", "MC_Features", ["TypeOK", "Emit"]),
-                                        ("MC_Cases", "MC_RoundTrip", ["TypeOK", "RoundTrip", "Emit"])):
+                                        ("MC_BaseCases" if tier == "quick" else "MC_Cases", "MC_RoundTrip", ["TypeOK", "RoundTrip", "Emit"])):
                 run2 = "C16.%s.%s.%s" % (module, cases, cfg)
                 r2 = tlc(module, scenario_cfg(cfg, cases, inv2), run2, workers=8, timeout=1800)
                 if not r2["ok"]:
